@@ -85,6 +85,33 @@ def oracle(run: runner.Run, oc: Outcome) -> None:
                            f"handler {c.hid} got retry={c.retry} but the body it was given records "
                            f"retries={want_retry} ({rec})", uid=uid, hid=c.hid)
 
+        # ---------------- A2. a finished record is not dropped before the close (server-side) ----------------
+        # "never invoked again" must not be dodged by deleting the record: a write of this process that removes the
+        # finished record of a top-level handler while other records of the operator stay (so it is not the close),
+        # followed by a new invocation of that very handler for the object in the same process. (Records of handlers
+        # that a superseding cause no longer selects are purged by design: those handlers are not invoked again.)
+        for tr in run.transitions:
+            if tr.uid != uid or common.op_of(tr.actor) != op or tr.before is None or tr.after is None:
+                continue
+            rb, ra = st.records(tr.before), st.records(tr.after)
+            if not ra:
+                continue
+            for hid, h in hspecs.items():
+                if h['kind'] not in common.CHANGE_KINDS or h.get('subs'):
+                    continue
+                key = st.key_name(hid)
+                if key in ra or not common.finished(rb.get(key)):
+                    continue
+                again = [c for s in lst if s.actor == tr.actor for c in s.calls
+                         if c.hid == hid and c.t0 > tr.t and st.record_for(c.body, hid) is None
+                         and int(c.rv or 0) >= int(tr.after['metadata']['resourceVersion'])]
+                if again:
+                    oc.add('C02/record-dropped', f"{h['kind']}-handler-reinvoked",
+                           f"the finished record of handler {hid} ({rb.get(key)}) was removed from {uid} by the operator's "
+                           f"write at t={tr.t:.4f} while other records stayed ({sorted(ra)}): not a close; the handler "
+                           f"was invoked again at t={again[0].t0:.4f} (retry={again[0].retry})", uid=uid, hid=hid)
+                    break
+
         # ---------------- cycles: delimited by cause change or by an own close ----------------
         cycles: list[list[changes.Step]] = []
         cur: list[changes.Step] = []
